@@ -231,11 +231,36 @@ func genC03(g *Gen, idx int) *Plan {
 	p := &Plan{Family: "C03-gw", Cfg: cfg}
 	sg := &sessGen{g: g, cid: "c1"}
 	sg.gap(5, 200)
-	sg.add(connectPkt("c1", uint16(g.Range(20, 120)), false, true))
+	ka := uint16(g.Range(20, 120))
+	longSleep := g.Bool(0.25)
+	if longSleep {
+		ka = uint16(g.Range(2, 6))
+	}
+	sg.add(connectPkt("c1", ka, false, true))
 	sg.gap(300, 800)
+	if longSleep {
+		// a sleep longer than the keep-alive: the gateway pings the broker on the client's behalf and the
+		// broker answers while the client sleeps; back in the active state the client's own pings must
+		// be answered one-to-one again
+		d := int64(ka) + g.Range(2, 2*int64(ka))
+		sg.add(refsn.Pkt{Type: refsn.DISCONNECT, HasDur: true, Duration: uint16(d)})
+		sg.gap(int64(ka)*1000+600, d*1000-300)
+		if g.Bool(0.4) {
+			sg.add(refsn.Pkt{Type: refsn.PINGREQ, Data: []byte("c1")})
+			sg.gap(int64(ka)*1000+600, d*1000-300)
+		}
+		sg.add(connectPkt("c1", ka, false, false))
+		sg.gap(300, 700)
+		sg.add(refsn.Pkt{Type: refsn.PINGREQ})
+		sg.gap(300, int64(ka)*1000-400)
+	}
 	n := int(g.Range(3, 12))
 	for i := 0; i < n; i++ {
-		switch g.Intn(10) {
+		c := g.Intn(10)
+		if longSleep && i%2 == 0 {
+			c = 6 // keep the session alive (and keep asking for PINGRESPs)
+		}
+		switch c {
 		case 0, 1, 2, 3:
 			s := refsn.Pkt{Type: refsn.SUBSCRIBE, MsgID: sg.nextMid(), QoS: uint8(g.Intn(3)), Dup: g.Bool(0.1)}
 			switch g.Intn(4) {
@@ -274,6 +299,9 @@ func genC03(g *Gen, idx int) *Plan {
 	}
 	if g.Bool(0.6) {
 		sg.add(refsn.Pkt{Type: refsn.DISCONNECT})
+	}
+	if longSleep {
+		p.Family = "C03-gw-long-sleep"
 	}
 	// broker SUBACK codes independent of the requested QoS
 	codes := []byte{0, 1, 2, 0x80}
